@@ -25,27 +25,42 @@ structure Entry (R : Type) where
   val : Str
   owner : Nat                            -- index of the template that put it there
   prov : Prov R
+  time : Nat                             -- when (specification clock)
 
 structure Spec (R : Type) where
   store : Key R → Option (Entry R)
   enabled : Nat → Bool
+  stamp : Nat → Nat                      -- when each template was last compiled
+  clock : Nat                            -- advances with every `created` / `set`
 
 def Spec.init (w : World R) : Spec R :=
   { store := fun _ => none
-    enabled := fun t => match w.tmpls[t]? with | some tm => tm.enabled0 | none => true }
+    enabled := fun t => match w.tmpls[t]? with | some tm => tm.enabled0 | none => true
+    stamp := fun _ => 0
+    clock := 0 }
 
-def Spec.put (s : Spec R) (K : Key R) (e : Entry R) : Spec R :=
-  { s with store := fun K' => if K' = K then some e else s.store K' }
+/-- a new entry is stamped with the specification clock, which then advances -/
+def Spec.put (s : Spec R) (K : Key R) (v : Str) (owner : Nat) (p : Prov R) : Spec R :=
+  { s with store := fun K' => if K' = K then some ⟨v, owner, p, s.clock⟩ else s.store K'
+           clock := s.clock + 1 }
+
+/-- what counts as "the back end has a value for this key" for template `tid`: an entry, and – when the implementation
+    honours `starttime` – one that is not older than the template itself -/
+def Spec.visible (be : Backend R) (s : Spec R) (tid : Nat) (K : Key R) : Option (Entry R) :=
+  match s.store K with
+  | some e => if be.honoursStarttime && decide (e.time < s.stamp tid) then none else some e
+  | none => none
 
 def Spec.del (s : Spec R) (K : Key R) : Spec R :=
   { s with store := fun K' => if K' = K then none else s.store K' }
 
 /-- effect of one event on what the back end holds / on `cache_enabled` -/
 def Spec.step (be : Backend R) (s : Spec R) : Ev R → Spec R
-  | .created tid _ K v c => s.put K ⟨v, tid, .creation c⟩
-  | .call tid (.set v) c k kw => s.put (c, be.regionOf kw, k) ⟨v, tid, .manual⟩
+  | .created tid _ K v c => s.put K v tid (.creation c)
+  | .call tid (.set v) c k kw => s.put (c, be.regionOf kw, k) v tid .manual
   | .call _ .inv c k kw => s.del (c, be.regionOf kw, k)
   | .enabledSet t b => { s with enabled := fun t' => if t' = t then b else s.enabled t' }
+  | .compiled t => { s with stamp := fun t' => if t' = t then s.clock else s.stamp t' }
   | _ => s
 
 /-- specification state after a trace (newest event first) -/
@@ -59,9 +74,9 @@ def sectionValue (P : Params R) (env' : Env) (h : Hdr) (body : Items) (st : St R
 
 /-- *body runs iff missing*: the wrapper bypasses the back end iff caching is disabled; otherwise it serves the
     stored value iff there is one and runs the body iff there is none -/
-def evRuns (s : Spec R) : Ev R → Bool
-  | .enter tid _ K (.hit _) => s.enabled tid && (s.store K).isSome
-  | .enter tid _ K .miss => s.enabled tid && (s.store K).isNone
+def evRuns (be : Backend R) (s : Spec R) : Ev R → Bool
+  | .enter tid _ K (.hit _) => s.enabled tid && (s.visible be tid K).isSome
+  | .enter tid _ K .miss => s.enabled tid && (s.visible be tid K).isNone
   | .bypass tid _ => !s.enabled tid
   | _ => true
 
@@ -70,6 +85,15 @@ def evReplay (s : Spec R) : Ev R → Bool
   | .enter _ _ K (.hit v) => match s.store K with
     | some e => e.val == v
     | none => false
+  | _ => true
+
+/-- *starttime*: on a back end that honours it, what is served was stored no earlier than the serving template was
+    compiled – entries left by a predecessor under the same cache id (the URI re-bound with `put_string`, a file
+    reloaded by the lookup, a recycled `memory:0x…` id) are never served -/
+def evFresh (be : Backend R) (s : Spec R) : Ev R → Bool
+  | .enter tid _ K (.hit _) => match s.store K with
+    | some e => !be.honoursStarttime || decide (s.stamp tid ≤ e.time)
+    | none => true
   | _ => true
 
 /-- *no cross-template service*: what is served was put there by the same template -/
